@@ -59,7 +59,7 @@ pub fn property() -> Property {
     add::<MapMapMVReg>(&mut jobs, "ops+merges+stale", Weights::mixed(), &[Class::T1, Class::T2, Class::T5], 18000, 200_000);
     Property {
         id: "C05",
-        rule: "Plans of Map edits built from real reads (update with nested add / add_all / nested rm from the nested contains() / nested write / nested-map update / nested-map rm; key rm from get(k); add contexts from read_ctx/get/len/is_empty) on Map<u8,Orswot>, Map<u8,MVReg>, Map<u8,Map<u8,Orswot>>, Map<u8,Map<u8,MVReg>> with 3 keys, 2 nested keys, 2 members, 2-4 editors (+0-1 observer), causal op delivery with duplicates, and (second group) merges and stale-snapshot merges; after EVERY step the affected replica's keys(), get(k).val (nested content at every depth), key witnesses and map clock are compared with the recursive dot-store specification computed from its knowledge set. Non-trivial = the history has a key remove concurrent with an update of that key by another actor which the remover had not seen, and some replica knows both; distinct = distinct Plan hash.".into(),
+        rule: "Plans of Map edits built from real reads (update with nested add / add_all / nested rm from the nested contains() / nested write / nested-map update / nested-map rm; key rm from get(k); add contexts from read_ctx/get/len/is_empty) on Map<u8,Orswot>, Map<u8,MVReg>, Map<u8,Map<u8,Orswot>>, Map<u8,Map<u8,MVReg>> with 3 keys, 2 nested keys, 2 members (and, in quarter-budget extra jobs, Map<u8,Orswot> / Map<u8,MVReg> over 12 keys with nested sets over 9 members, 35 % long histories: maps of 6-12 keys), 2-4 editors (+0-1 observer), causal op delivery with duplicates, and (second group) merges and stale-snapshot merges; after EVERY step the affected replica's keys(), get(k).val (nested content at every depth), key witnesses and map clock are compared with the recursive dot-store specification computed from its knowledge set. Non-trivial = the history has a key remove concurrent with an update of that key by another actor which the remover had not seen, and some replica knows both; distinct = distinct Plan hash.".into(),
         assumptions: vec![
             "each actor confined to one replica; contexts derived from real reads of the same data they edit".into(),
             "causal delivery (per-actor-order delivery of Map is explored by C08)".into(),
